@@ -58,7 +58,7 @@ static void vm_spin(void) {
     __CPROVER_assume(vm_others_quiet(2));
     return;
   }
-  vm_status[vm_tid] = VS_STUCK; vm_dead = 1;
+  vm_final_status = VS_STUCK; vm_dead = 1;   /* published at thread end, after the private copies were written back */
 }
 static void vm_progress(void) {
   /* an operation completed.  After the confirm stage a thread must not resume (others relied on it being stuck).
@@ -71,11 +71,11 @@ static void vm_progress(void) {
 }
 static void vm_thread_begin(int t) { vm_tid = t; vm_kt = (t - 1) % VM_NKT; vm_dead = 0; vm_spins = 0; vm_stage = 0; }
 static void vm_thread_end(int t) {
-  if (vm_dead) return;
+  if (vm_dead) { vm_status[t] = vm_final_status; return; }
   if (vm_stage == 2) __CPROVER_assume(0);
   vm_status[t] = VS_DONE;
 }
-static void vm_park(void) { vm_status[vm_tid] = VS_PARKED; vm_dead = 1; }
+static void vm_park(void) { vm_final_status = VS_PARKED; vm_dead = 1; }   /* status is published at thread end (after write-back of private copies) */
 static void vm_set_kt(W k) { vm_kt = k; }
 static W vm_is_parked(W t) { return vm_status[t] == VS_PARKED; }
 static W vm_get_kt(void) { return vm_kt; }
